@@ -477,6 +477,9 @@ impl BucketSegmentReader {
         let record = match self.reader.read_record(start_offset, hint) {
             Ok(record) => record,
             Err(seglog::read::ReadError::OutOfBounds { .. }) => return Ok(None),
+            // The preallocated, never written (or truncated) tail of a segment: a sealed
+            // segment is read up to its file size, so this is where its records end.
+            Err(seglog::read::ReadError::TruncationMarker { .. }) => return Ok(None),
             Err(err) => return Err(err.into()),
         };
 
